@@ -276,6 +276,9 @@ def _unencodable_case(enc, order):
             cur = st.get(name)
             if cur == files[name]:
                 continue
+            if name == names[0]:
+                # a complete new content of this file cannot be expressed in its encoding: anything but the old bytes is damage
+                return ("half-written-test-file", "%s %s is not its old content any more (%d bytes): %r | %s" % (label, name, len(cur), cur[:120], r["out"][-300:]))
             try:
                 ast.parse(cur.decode(codec))
             except Exception as e:  # noqa
